@@ -54,6 +54,7 @@ type cmdCase struct {
 	HostHdr   bool   `json:"hosthdr"`
 	Stall     bool   `json:"stall"`
 	Head      bool   `json:"head"`
+	Lookup    bool   `json:"lookup"`
 }
 
 func (c cmdCase) valid() bool {
@@ -82,6 +83,9 @@ func (c cmdCase) valid() bool {
 		return false
 	}
 	if c.Head && c.Body {
+		return false
+	}
+	if c.Lookup && (c.Server != "plain" || c.ConnectTo || c.LAddr || c.HostHdr) {
 		return false
 	}
 	return true
@@ -124,6 +128,9 @@ func (c cmdCase) op(dir string) map[string]any {
 	var doc strings.Builder
 	for i := 1; i <= e2eK; i++ {
 		base := "{{URL}}"
+		if c.Lookup {
+			base = "http://localhost:{{PORT}}"
+		}
 		if c.ConnectTo {
 			base = "http://E2E.invalid:{{PORT}}"
 			if c.Hosts == 2 && i%2 == 0 {
@@ -208,6 +215,9 @@ func (c cmdCase) op(dir string) map[string]any {
 	if c.MaxConn > 0 {
 		args = append(args, "-max-connections", strconv.Itoa(c.MaxConn))
 	}
+	if c.Lookup {
+		args = append(args, "-dns-ttl", "1us")
+	}
 	if !c.HTTP2 {
 		args = append(args, "-http2=false")
 	}
@@ -251,6 +261,22 @@ func TestDrv_E2E(t *testing.T) {
 			return nil
 		}))
 	}
+	// the cases that name the server as "localhost" need that name to resolve without a network (the hosts file)
+	localhostResolves := false
+	if addrs, err := net.LookupHost("localhost"); err == nil {
+		for _, a := range addrs {
+			localhostResolves = localhostResolves || a == "127.0.0.1"
+		}
+	}
+	if !localhostResolves {
+		kept := cases[:0]
+		for _, c := range cases {
+			if !c.Lookup {
+				kept = append(kept, c)
+			}
+		}
+		cases = kept
+	}
 	nrand := int(envInt("VERIF_E2E_RANDOM", 24))
 	if thorough() {
 		nrand = 200
@@ -268,6 +294,7 @@ func TestDrv_E2E(t *testing.T) {
 		c.H2C = c.Server == "h2c" && r.Intn(2) == 0
 		c.HostHdr = r.Intn(5) == 0
 		c.Head = r.Intn(4) == 0
+		c.Lookup = localhostResolves && r.Intn(6) == 0
 		if !c.valid() {
 			continue
 		}
@@ -391,6 +418,9 @@ func TestDrv_E2E(t *testing.T) {
 					li = 4
 				}
 				dialhost := "127.0.0.1"
+				if c.Lookup {
+					dialhost = "localhost"
+				}
 				if c.ConnectTo {
 					dialhost = "E2E.invalid"
 					if c.Hosts == 2 && li%2 == 0 {
